@@ -57,14 +57,27 @@ MUST_REACH = ['debian.deb822:_multivalued.__init__', 'debian.deb822:_multivalued
               'debian.deb822:Deb822.dump']
 
 # workload sizes (totals over all shards)
-REPS4 = {'quick': 30, 'thorough': 150}         # fillings per (config, subset, mode) for the 4-field classes
+REPS4 = {'quick': 20, 'thorough': 150}         # fillings per (config, subset, mode) for the 4-field classes
 PD_MAXK = {'quick': 3, 'thorough': 4}          # PdiffIndex: all subsets up to this size ...
 PD_REPS = {'quick': 2, 'thorough': 6}
 PD_RANDOM = {'quick': 300, 'thorough': 2000}   # ... plus this many random larger subsets
-RANDOM = {'quick': 18000, 'thorough': 600000}   # free random stream
+RANDOM = {'quick': 12000, 'thorough': 600000}   # free random stream
 
-FLOORS = {'quick': {'nontrivial': 2, 'monitors': {'M': 2}},
-          'thorough': {'nontrivial': 2, 'monitors': {'M': 2}}}
+# ~50% of what the unrepaired tree measures (there a third of the dumps raise, so M.reparse / M.align are
+# at their lowest; a tree where dump() works measures more)
+FLOORS = {'quick': {'nontrivial': 7000,
+                    'monitors': {'M': 9000, 'M.parse': 4500, 'M.dump': 9000, 'M.reparse': 5600, 'M.align': 10000},
+                    'counters': {'class:Dsc': 1300, 'class:Changes': 1300, 'class:BuildInfo': 1300,
+                                 'class:PdiffIndex': 2500, 'class:Release': 2600, 'behavior:dak': 1300,
+                                 'behavior:apt-ftparchive': 1300, 'mode:text': 4500, 'mode:build': 4500,
+                                 'form:single': 1100, 'form:multi': 12000, 'has-absent-field': 8000}},
+          'thorough': {'nontrivial': 240000,
+                       'monitors': {'M': 330000, 'M.parse': 160000, 'M.dump': 330000, 'M.reparse': 220000,
+                                    'M.align': 440000},
+                       'counters': {'class:Dsc': 52000, 'class:Changes': 52000, 'class:BuildInfo': 52000,
+                                    'class:PdiffIndex': 70000, 'class:Release': 100000, 'behavior:dak': 52000,
+                                    'behavior:apt-ftparchive': 52000, 'mode:text': 160000, 'mode:build': 160000,
+                                    'form:single': 43000, 'form:multi': 460000, 'has-absent-field': 290000}}}
 
 HOSTILE_ATOMS = ['#', ':', '-', '-----BEGIN', 'PGP', '=', '\\', 'Files:', '.', '..', '#x', 'a:b', '::', '-----',
                  '%', '"', "'", '@', ',', ';', '(', ')', '[', ']', '{', '}', '<', '>', '|', '&', '*', '!', '?', '$',
